@@ -106,9 +106,29 @@ func specDepth(spaces int, row string) int {
 
 //@ pred parserOK(p *Parser): p != nil && p.spaces >= 0 && (p.sep == "" || p.sep == " " || p.sep == "\t")
 
-//@ func markdown.Parser.Parse
-//@   assumed
+//@ func markdown.Parser.validateSpaces
+//@   requires nn: p != nil && p.spaces >= 0 && spaceCount >= 0
+//@   ensures ok: (result == nil) == (p.spaces <= 1 || spaceCount % p.spaces == 0)
+//@   ensures err: result == nil || result == ErrIncorrectFormat
+
+//@ func markdown.Parser.separateRow
 //@   requires st: parserOK(p)
+//@   requires row: len(row) > 0
+//@   modifies p.spaces, p.sep
+//@   use lemma lemmaCountBound, lemmaCountAll, lemmaUniform, lemmaIndentProps, lemmaIndentAll
+//@   ensures st': parserOK(p)
+//@   ensures err: result2 == nil || result2 == ErrIncorrectFormat
+//@   ensures ok [C02]: (result2 == nil) == specItemShape(old(p.sep), old(p.spaces), row)
+//@   ensures res [C01,C15]: result2 == nil ==> result0 == specIndent(row) && result1 == drop(row, specIndent(row) + 1) && p.spaces == specUnit(old(p.spaces), row) && p.sep == (specIndent(row) == 0 ? "" : (old(p.sep) != "" ? old(p.sep) : take(row, 1)))
+//@ loop markdown.Parser.separateRow#1
+//@   invariant st: parserOK(p) && p.spaces == old(p.spaces)
+//@   invariant sep: p.sep == old(p.sep) || (old(p.sep) == "" && specIndent(row) > 0 && p.sep == take(row, 1))
+//@   invariant err: ($i > 0 ==> err == ErrIncorrectFormat) && ($i == 0 ==> err == nil)
+//@   invariant tried: specItemShape(old(p.sep), old(p.spaces), row) ==> len(listSymbols) == 3 && ($i > 0 ==> row[specIndent(row)] != listSymbols[0][0]) && ($i > 1 ==> row[specIndent(row)] != listSymbols[1][0]) && ($i > 2 ==> row[specIndent(row)] != listSymbols[2][0])
+
+//@ func markdown.Parser.Parse
+//@   requires st: parserOK(p)
+//@   use lemma lemmaIndentProps
 //@   modifies p.isSharpRoot, p.spaces, p.sep
 //@   ensures st': parserOK(p)
 //@   ensures class [C02,C12]: result1 == nil || result1 == ErrBlankLine || result1 == ErrEmptyText || result1 == ErrIncorrectFormat
@@ -123,3 +143,82 @@ func specDepth(spaces int, row string) int {
 
 //@ func markdown.NewParser
 //@   ensures fresh: fresh(result) && parserOK(result) && !result.isSharpRoot && result.spaces == 0 && result.sep == ""
+
+// countByteTo: number of bytes equal to c among the first n bytes of s.
+//@ spec markdown.countByteTo
+//@   decreases n
+func countByteTo(s string, c byte, n int) int {
+	if n <= 0 || n > len(s) {
+		return 0
+	}
+	if s[n-1] == c {
+		return countByteTo(s, c, n-1) + 1
+	}
+	return countByteTo(s, c, n-1)
+}
+
+// ---------------------------------------------------------------------------------------------
+// Lemmas about the row specification (ghost functions, proved by induction).
+
+//@ lemma markdown.lemmaCountBound
+//@   nowf
+//@   requires rng: 0 <= n && n <= len(s)
+//@   ensures bound: 0 <= countByteTo(s, c, n) && countByteTo(s, c, n) <= n
+//@   trigger countByteTo(s, c, n)
+//@   decreases n
+func lemmaCountBound(s string, c byte, n int) {
+	if n > 0 {
+		lemmaCountBound(s, c, n-1)
+	}
+}
+
+//@ lemma markdown.lemmaCountAll
+//@   nowf
+//@   requires rng: 0 <= n && n <= len(s)
+//@   use lemma lemmaCountBound
+//@   ensures all: (countByteTo(s, c, n) == n) == (forall t int :: {s[t]} 0 <= t && t < n ==> s[t] == c)
+//@   trigger countByteTo(s, c, n)
+//@   decreases n
+func lemmaCountAll(s string, c byte, n int) {
+	if n > 0 {
+		lemmaCountAll(s, c, n-1)
+	}
+}
+
+//@ lemma markdown.lemmaUniform
+//@   nowf
+//@   requires rng: 0 <= k && k <= len(row)
+//@   ensures all: uniformTo(row, k) == (forall t int :: {row[t]} 0 <= t && t < k ==> row[t] == row[0])
+//@   trigger uniformTo(row, k)
+//@   decreases k
+func lemmaUniform(row string, k int) {
+	if k > 1 {
+		lemmaUniform(row, k-1)
+	}
+}
+
+//@ lemma markdown.lemmaIndentProps
+//@   nowf
+//@   requires rng: 0 <= i && i <= len(row)
+//@   ensures props: 0 <= indentFrom(row, i) && i + indentFrom(row, i) <= len(row) && (forall t int :: {row[t]} i <= t && t < i + indentFrom(row, i) ==> isIndentByte(row[t])) && (i + indentFrom(row, i) < len(row) ==> !isIndentByte(row[i + indentFrom(row, i)]))
+//@   trigger indentFrom(row, i)
+//@   decreases len(row) - i
+func lemmaIndentProps(row string, i int) {
+	if i < len(row) && isIndentByte(row[i]) {
+		lemmaIndentProps(row, i+1)
+	}
+}
+
+//@ lemma markdown.lemmaIndentAll
+//@   nowf
+//@   requires rng: 0 <= i && i <= n && n <= len(row)
+//@   requires ind: forall t int :: {row[t]} i <= t && t < n ==> isIndentByte(row[t])
+//@   requires end: n == len(row) || !isIndentByte(row[n])
+//@   ensures eq: indentFrom(row, i) == n - i
+//@   trigger indentFrom(row, i), take(row, n)
+//@   decreases n - i
+func lemmaIndentAll(row string, i int, n int) {
+	if i < n {
+		lemmaIndentAll(row, i+1, n)
+	}
+}
